@@ -247,6 +247,45 @@ pub fn image_pool() -> Vec<String> {
     v
 }
 
+/// Image references with STRUCTURE (data URIs with parameters, URLs with user info / query / fragment, file and relative paths): one
+/// XML special or non-ASCII character inserted at every position of every template, and every token (between the delimiters
+/// ; , : / ? & = #) wrapped in double quotes, single quotes or angle brackets.  An escaper with a fast path keyed on the shape of
+/// the string is only exposed by a special sitting in the right part of a well-formed reference.
+pub fn image_structured(seed: u64, thorough: bool) -> Vec<String> {
+    let templates = [
+        "data:image/svg+xml;charset=utf-8;base64,PHN2Zy8+", "data:image/png;base64,iVBORw0KGgo=", "data:;base64,QQ==", "data:text/plain,hello",
+        "data:image/svg+xml;utf8,<svg xmlns='http://www.w3.org/2000/svg'/>", "https://user:pw@example.com:8080/a/b.png?x=1&y=2#frag",
+        "file:///C:/dir/logo.png", "../img/logo.final.v2.png", "//cdn.example.com/logo.svg", "javascript:alert(1)", "#fragment-only", "logo.png",
+    ];
+    let mut out = Vec::new();
+    let mut n = 0u64;
+    for t in templates {
+        let chars: Vec<char> = t.chars().collect();
+        for p in 0..=chars.len() {
+            for sp in ["&", "<", ">", "\"", "'", "\u{e9}", "&amp;", "]]>"] {
+                n += 1;
+                if !thorough && n % 7 != seed % 7 { continue; }
+                let mut s: String = chars[..p].iter().collect(); s.push_str(sp); s.extend(chars[p..].iter());
+                out.push(s);
+            }
+        }
+        // tokens wrapped
+        let mut bounds = vec![0usize];
+        for (i, c) in chars.iter().enumerate() { if ";,:/?&=#".contains(*c) { bounds.push(i); bounds.push(i + 1); } }
+        bounds.push(chars.len());
+        for w in bounds.windows(2) {
+            if w[1] <= w[0] + 1 { continue; }
+            for (l, r) in [("\"", "\""), ("'", "'"), ("<", ">"), ("&", ";")] {
+                n += 1;
+                if !thorough && n % 3 != seed % 3 { continue; }
+                let mut s: String = chars[..w[0]].iter().collect(); s.push_str(l); s.extend(chars[w[0]..w[1]].iter()); s.push_str(r); s.extend(chars[w[1]..].iter());
+                out.push(s);
+            }
+        }
+    }
+    out
+}
+
 /// C12: builder programs (all of length <= 2 over an abstract alphabet, longer random ones), all 40 versions x 6 shapes,
 /// the image-string pool x 3 frame shapes.
 pub fn svg(sink: &mut Sink, seed: u64, thorough: bool) {
@@ -313,6 +352,12 @@ pub fn svg(sink: &mut Sink, seed: u64, thorough: bool) {
             let id = sink.id();
             sink.emit(&svg_event(id, &format!("svgimg:{i}"), &qr, &[Call::ImageBackgroundShape(k), Call::Image(s.clone())]));
         }
+    }
+    // structured image references on the smallest symbol (the whole document is judged each time)
+    let q1 = qr_of(1, seed);
+    for (i, s) in image_structured(seed, thorough).into_iter().enumerate() {
+        let id = sink.id();
+        sink.emit(&svg_event(id, &format!("svghref:{}", i % 10), &q1, &[Call::ImageBackgroundShape(i % 3), Call::Image(s)]));
     }
     // margins 0..n on small symbols, 3-byte and slice colours
     for m in 0..(if thorough { 60 } else { 24 }) {
